@@ -257,9 +257,12 @@ func (c *cubicSender) maybeIncreaseCwnd(
 			c.numAckedPackets = 0
 		}
 	} else {
+		// An acknowledgement never shrinks the window: the cubic target falls below the current
+		// window when the minimum RTT dropped since the previous ACK (the curve is evaluated at
+		// eventTime+minRTT) or when the cube overflows about 25 s into an epoch.
 		c.congestionWindow = min(
 			c.maxCongestionWindow(),
-			c.cubic.CongestionWindowAfterAck(ackedBytes, c.congestionWindow, c.rttStats.MinRTT(), eventTime),
+			max(c.congestionWindow, c.cubic.CongestionWindowAfterAck(ackedBytes, c.congestionWindow, c.rttStats.MinRTT(), eventTime)),
 		)
 	}
 }
